@@ -2,6 +2,27 @@
 
 use crate::view::{BoxConstraint, ViewLayoutStore, ViewMutLayout, Layout};
 
+// The modular View contract as a probe child: checks the constraint it is handed (min <= max) and answers with ANY
+// size inside it.
+struct Probe { h: usize, w: usize }
+impl View for Probe {
+    fn render(&self, _ctx: &ViewContext, _surf: TerminalSurface<'_>, _layout: ViewLayout<'_>) -> Result<(), Error> { Ok(()) }
+    fn layout(&self, _ctx: &ViewContext, ct: BoxConstraint, mut layout: ViewMutLayout<'_>) -> Result<(), Error> {
+        assert!(ct.min().height <= ct.max().height && ct.min().width <= ct.max().width);
+        // any size inside the constraint (clamping a free value ranges over exactly those sizes, also when replayed natively)
+        let h = self.h.clamp(ct.min().height, ct.max().height);
+        let w = self.w.clamp(ct.min().width, ct.max().width);
+        *layout = Layout::new().with_size(Size { height: h, width: w });
+        Ok(())
+    }
+}
+fn any_probe() -> Probe { Probe { h: kani::any(), w: kani::any() } }
+fn any_child_align() -> Align {
+    let k: u8 = kani::any();
+    kani::assume(k < 5);
+    match k { 0 => Align::Start, 1 => Align::Center, 2 => Align::End, 3 => Align::Expand, _ => Align::Shrink }
+}
+
 fn any_axis() -> Axis { if kani::any() { Axis::Horizontal } else { Axis::Vertical } }
 fn any_justify() -> Justify {
     let k: u8 = kani::any();
@@ -33,3 +54,25 @@ fn c10_flex_zero_children() {
     std::mem::forget(layout);
     std::mem::forget(store);
 }
+
+//# kind=bounded tier=quick props=C10 bound="flex with one non-flex probe child (any size within the constraint it is given); every direction, justification, alignment and constraint with min <= max" fns=flex_layout | laying out a one-child flex terminates without panicking and reports a size within the constraint
+#[kani::proof]
+#[kani::unwind(5)]
+fn c10_flex_one_child() {
+    let ctx = ViewContext::dummy();
+    let (min, max, ct) = any_ct();
+    let mut store = ViewLayoutStore::new();
+    let mut layout = ViewMutLayout::new(&mut store, Layout::default());
+    let children: [FlexChild<Probe>; 1] = [FlexChild::new(any_probe()).align(any_child_align())];
+    let r = flex_layout(any_axis(), any_justify(), children, &ctx, ct, layout.view_mut());
+    assert!(r.is_ok());
+    let s = layout.size();
+    assert!(s.height >= min.height && s.height <= max.height && s.width >= min.width && s.width <= max.width);
+    kani::cover!(max.width > 0);
+    std::mem::forget(r);
+    std::mem::forget(layout);
+    std::mem::forget(store);
+}
+
+// (two or more children, flex factors: CBMC's memory grows past 12 GB within two minutes - the SmallVec layout arena
+//  with several nodes plus symbolic sizes - so those configurations are not explored)
